@@ -76,6 +76,8 @@ class Ctx:
         self.calls = {"atan2": [], "sqrt": []}
         self.nonneg_ids = set()
         self.lazy_sqrt = False
+        self._keep = []
+        self.sqrt_memo = {}   # (radicand ast id, lazy) -> (y, nan condition, radicand kept alive)
 
     # -- assumptions -----------------------------------------------------
     def assume(self, c, defines=None):
@@ -92,11 +94,14 @@ class Ctx:
         self.cond_def.append(defines.get_id() if defines is not None else None)
 
     def vars_of(self, t):
-        """ids of the uninterpreted constants in term t (cached per AST node)."""
+        """ids of the uninterpreted constants in term t.
+
+        Cached per AST node; the cache keeps the node alive because z3 recycles AST ids of
+        collected terms (a stale id would silently return another term's variables)."""
         k = t.get_id()
         r = self._vars_cache.get(k)
         if r is not None:
-            return r
+            return r[0]
         out = set()
         stack = [t]
         seen = set()
@@ -108,7 +113,7 @@ class Ctx:
             seen.add(i)
             c = self._vars_cache.get(i)
             if c is not None:
-                out |= c
+                out |= c[0]
                 continue
             if z3.is_const(x):
                 if x.decl().kind() == z3.Z3_OP_UNINTERPRETED:
@@ -117,7 +122,7 @@ class Ctx:
             if z3.is_app(x):
                 stack.extend(x.children())
         r = frozenset(out)
-        self._vars_cache[k] = r
+        self._vars_cache[k] = (r, t)
         return r
 
     def relevant(self, exprs):
@@ -164,6 +169,7 @@ class Ctx:
         if key in self.ax_seen:
             return
         self.ax_seen.add(key)
+        self._keep.append(c)  # keeps the keyed term alive so its AST id is not recycled
         self.assume(c)
 
     def _check(self, extra):
@@ -631,11 +637,16 @@ class Sym:
     # -- ufunc method names (numpy object loops) -------------------------
     def sqrt(self):
         c = ctx()
+        memo = c.sqrt_memo.get((self.e.get_id(), c.lazy_sqrt))
+        if memo is not None:
+            # same radicand as an earlier sqrt on this path: same value (keeps relational checks trivial)
+            return Sym(memo[0], _nj(self.nan, memo[1]))
         if c.lazy_sqrt:
             y = c.fresh("sqrt")
             c.assume(z3.Implies(self.e >= 0, z3.And(y >= 0, y * y == self.e)), defines=y)
             c.calls["sqrt"].append((self.e, y))
             c.nonneg_ids.add(y.get_id())
+            c.sqrt_memo[(self.e.get_id(), True)] = (y, self.e < 0, self.e)
             return Sym(y, _nj(self.nan, self.e < 0))
         if self.nan is not None:
             return self.resolve().sqrt()
@@ -645,6 +656,7 @@ class Sym:
         c.assume(z3.And(y >= 0, y * y == self.e), defines=y)
         c.calls["sqrt"].append((self.e, y))
         c.nonneg_ids.add(y.get_id())
+        c.sqrt_memo[(self.e.get_id(), False)] = (y, None, self.e)
         return Sym(y)
 
     def conjugate(self): return self
